@@ -2,9 +2,7 @@
   C04 — essential object invariants, every object kind × key kind.
   Executable model, CORE LEAN ONLY (linked into model_c04).
 
-  Part 1  DefineOwn   : baseObject._defineOwnProperty (object.go:650) transcribed line by line, in two variants:
-                        `cur`   = the code as it stands in /repo (three kind-change defects, see design/C04.md),
-                        `fixed` = the code after fixes/C04-defineOwnProperty-kind-change.diff;
+  Part 1  DefineOwn   : baseObject._defineOwnProperty (object.go:650, after fix d72dab1) transcribed line by line,
                         and the spec's ValidateAndApplyPropertyDescriptor (ECMA-262 10.1.6.3).
   Part 2  SetPath     : setOwn*/_setForeign*/setForeign*/Object.set* transcribed as THREE separate copies, and
                         OrdinarySet (10.1.9.1/2) with Receiver.
@@ -80,34 +78,28 @@ def existingOf {V} (existingValue : Option (Stored V)) : VProp V :=
   | some (.plain v) => { value := some v, writable := true, configurable := true, enumerable := true,
                          accessor := false, getterFunc := none, setterFunc := none }      -- :665-670
 
-/-- The validation part object.go:673-702 for an EXISTING property: `true` = `goto Reject`.
-`fixed = false`: line 681 as it stands (tests `descr.Value != nil` / `getterObj != nil || setterObj != nil`);
-`fixed = true` : tests `descr.IsData()` / `descr.IsAccessor()`. -/
-def rejects {V} [DecidableEq V] (fixed : Bool) (existing : VProp V) (descr : Desc V) : Bool :=
+/-- The validation part object.go:673-702 for an EXISTING property: `true` = `goto Reject`. -/
+def rejects {V} [DecidableEq V] (existing : VProp V) (descr : Desc V) : Bool :=
   let getterObj := objOf descr.getter
   let setterObj := objOf descr.setter
   -- :673-680
   if !existing.configurable && (descr.configurable == .fTrue ||
         (descr.enumerable.isSet && descr.enumerable.bool != existing.enumerable)) then true
-  else
-    let kindChange : Bool :=
-      if fixed then (existing.accessor && descr.isData) || (!existing.accessor && descr.isAccessor)
-      else (existing.accessor && descr.value.isSome) || (!existing.accessor && (getterObj.isSome || setterObj.isSome))  -- :681
-    if kindChange then
-      !existing.configurable                                                               -- :682
-    else if !existing.accessor then                                                        -- :685
-      !existing.configurable && !existing.writable &&
-        (descr.writable == .fTrue ||                                                       -- :688
-         (match descr.value with                                                           -- :691  !descr.Value.SameAs(existing.value)
-          | some v => !(existing.value == some v)
-          | none => false))
-    else                                                                                   -- :696
-      !existing.configurable &&
-        ((descr.getter.isSome && existing.getterFunc != getterObj) ||
-         (descr.setter.isSome && existing.setterFunc != setterObj))                        -- :698
+  else if (existing.accessor && descr.isData) || (!existing.accessor && descr.isAccessor) then   -- :681
+    !existing.configurable                                                                 -- :682
+  else if !existing.accessor then                                                          -- :685
+    !existing.configurable && !existing.writable &&
+      (descr.writable == .fTrue ||                                                         -- :688
+       (match descr.value with                                                             -- :691  !descr.Value.SameAs(existing.value)
+        | some v => !(existing.value == some v)
+        | none => false))
+  else                                                                                     -- :696
+    !existing.configurable &&
+      ((descr.getter.isSome && existing.getterFunc != getterObj) ||
+       (descr.setter.isSome && existing.setterFunc != setterObj))                          -- :698
 
-/-- The application part object.go:705-745. -/
-def applyDesc {V} (fixed : Bool) (undef : V) (existing : VProp V) (descr : Desc V) : Stored V :=
+/-- The application part object.go:705-758. -/
+def applyDesc {V} (undef : V) (existing : VProp V) (descr : Desc V) : Stored V :=
   match descr.value, descr.writable == .fTrue && descr.enumerable == .fTrue && descr.configurable == .fTrue with
   | some v, true => .plain v                                                               -- :705-707
   | _, _ =>
@@ -120,33 +112,82 @@ def applyDesc {V} (fixed : Bool) (undef : V) (existing : VProp V) (descr : Desc 
       | none => e
     let e :=                                                                                          -- :725
       if descr.value.isSome || descr.writable.isSet then
-        if fixed && e.accessor then
-          -- fixed: accessor → data drops the accessor fields; [[Writable]] defaults to false
+        if e.accessor then
+          -- :726-733 accessor → data: the accessor functions go away, [[Writable]] defaults to false
           { e with accessor := false, getterFunc := none, setterFunc := none,
                    writable := if descr.writable.isSet then e.writable else false }
-        else { e with accessor := false }
+        else { e with accessor := false }                                                             -- :734
       else e
-    let e :=                                                                                          -- fixed only: data → accessor has no [[Writable]]
-      if fixed && (descr.getter.isSome || descr.setter.isSome) && !e.accessor then { e with writable := false } else e
-    let e := match descr.getter with                                                                  -- :729  propGetter(undefined) = nil
+    let e :=                                                                                          -- :737-740 data → accessor has no [[Writable]]
+      if (descr.getter.isSome || descr.setter.isSome) && !e.accessor then { e with writable := false } else e
+    let e := match descr.getter with                                                                  -- :742  propGetter(undefined) = nil
       | some g => { e with getterFunc := g, value := none, accessor := true }
       | none => e
-    let e := match descr.setter with                                                                  -- :735
+    let e := match descr.setter with                                                                  -- :748
       | some s => { e with setterFunc := s, value := none, accessor := true }
       | none => e
-    let e := if !e.accessor && e.value.isNone then { e with value := some undef } else e              -- :741
+    let e := if !e.accessor && e.value.isNone then { e with value := some undef } else e              -- :754
     .prop e
 
 /-- `baseObject._defineOwnProperty` (object.go:650): `none` = `(nil, false)`; `some s` = `(s, true)`. -/
-def defineOwn {V} [DecidableEq V] (fixed : Bool) (undef : V) (existingValue : Option (Stored V)) (descr : Desc V)
+def defineOwn {V} [DecidableEq V] (undef : V) (existingValue : Option (Stored V)) (descr : Desc V)
     (extensible : Bool) : Option (Stored V) :=
   match existingValue with
   | none =>
     if !extensible then none                                                               -- :658
-    else some (applyDesc fixed undef (existingOf none) descr)
+    else some (applyDesc undef (existingOf none) descr)
   | some ev =>
-    if rejects fixed (existingOf (some ev)) descr then none
-    else some (applyDesc fixed undef (existingOf (some ev)) descr)
+    if rejects (existingOf (some ev)) descr then none
+    else some (applyDesc undef (existingOf (some ev)) descr)
+
+/-! ### regression only: `_defineOwnProperty` as it was BEFORE commit d72dab1 (kept for the `…_prefix_witness` theorems) -/
+
+def rejectsPre {V} [DecidableEq V] (existing : VProp V) (descr : Desc V) : Bool :=
+  let getterObj := objOf descr.getter
+  let setterObj := objOf descr.setter
+  if !existing.configurable && (descr.configurable == .fTrue ||
+        (descr.enumerable.isSet && descr.enumerable.bool != existing.enumerable)) then true
+  else if (existing.accessor && descr.value.isSome) || (!existing.accessor && (getterObj.isSome || setterObj.isSome)) then
+    !existing.configurable          -- the defect: tested `descr.Value != nil` / `getterObj != nil || setterObj != nil`
+  else if !existing.accessor then
+    !existing.configurable && !existing.writable &&
+      (descr.writable == .fTrue ||
+       (match descr.value with
+        | some v => !(existing.value == some v)
+        | none => false))
+  else
+    !existing.configurable &&
+      ((descr.getter.isSome && existing.getterFunc != getterObj) ||
+       (descr.setter.isSome && existing.setterFunc != setterObj))
+
+def applyDescPre {V} (undef : V) (existing : VProp V) (descr : Desc V) : Stored V :=
+  match descr.value, descr.writable == .fTrue && descr.enumerable == .fTrue && descr.configurable == .fTrue with
+  | some v, true => .plain v
+  | _, _ =>
+    let e := existing
+    let e := if descr.writable.isSet then { e with writable := descr.writable.bool } else e
+    let e := if descr.enumerable.isSet then { e with enumerable := descr.enumerable.bool } else e
+    let e := if descr.configurable.isSet then { e with configurable := descr.configurable.bool } else e
+    let e := match descr.value with
+      | some v => { e with value := some v, getterFunc := none, setterFunc := none }
+      | none => e
+    let e := if descr.value.isSome || descr.writable.isSet then { e with accessor := false } else e   -- the defect: stale fields
+    let e := match descr.getter with
+      | some g => { e with getterFunc := g, value := none, accessor := true }
+      | none => e
+    let e := match descr.setter with
+      | some s => { e with setterFunc := s, value := none, accessor := true }
+      | none => e
+    let e := if !e.accessor && e.value.isNone then { e with value := some undef } else e
+    .prop e
+
+def defineOwnPre {V} [DecidableEq V] (undef : V) (existingValue : Option (Stored V)) (descr : Desc V)
+    (extensible : Bool) : Option (Stored V) :=
+  match existingValue with
+  | none => if !extensible then none else some (applyDescPre undef (existingOf none) descr)
+  | some ev =>
+    if rejectsPre (existingOf (some ev)) descr then none
+    else some (applyDescPre undef (existingOf (some ev)) descr)
 
 /-- Spec-level property (ECMA-262 6.1.7.1): data or accessor, fully populated. -/
 inductive SProp (V : Type) where
